@@ -418,6 +418,11 @@ func (e *env) doDeliver(k int, keep bool) {
 	n := e.nodes[m.to]
 	// local clock of the receiver at arrival (for the not-future clause)
 	localNs := e.now.Add(n.Skew).UnixNano()
+	// a block the node already has says nothing about this arrival (duplicate / re-sync)
+	hadIt := false
+	if _, gerr := n.CS.GetBlock([]byte(digestOf(m.b))); gerr == nil {
+		hadIt = true
+	}
 	var err error
 	if p := catch(func() { err = n.AddBlock(m.b, "peer") }); p != "" {
 		x.Fail(e.prop, "node-died-on-block", kindName[m.kind], fmt.Sprintf("node %d died on a %s block from %d: %s", m.to, kindName[m.kind], m.from, p), e.step)
@@ -432,7 +437,7 @@ func (e *env) doDeliver(k int, keep bool) {
 	if _, gerr := n.CS.GetBlock([]byte(digestOf(m.b))); gerr == nil {
 		stored = true
 	}
-	if stored {
+	if stored && !hadIt {
 		// not-future clause, at acceptance time, for everything the node keeps
 		im := int64(e.intv) * 1000
 		bs, _ := ownerIndex(m.b.GetHeader().GetTimestamp(), im, e.nbp)
